@@ -10,8 +10,6 @@ MUTANTS = [
  ('c06_ekf_batch_prev_acc', 'C06', 'ahrs/filters/ekf.py', "                Q[t] = self.update(Q[t-1], self.gyr[t], self.acc[t], self.mag[t])", "                Q[t] = self.update(Q[t-1], self.gyr[t], self.acc[t-1], self.mag[t])"),
  ('c06_oleq_unseeded_rng', 'C06', 'ahrs/filters/oleq.py', "        q = np.random.random(4)-0.5", "        q = np.random.default_rng().random(4)-0.5"),
  ('c06_aqua_adaptive_state', 'C06', 'ahrs/filters/aqua.py', "        Q[0] = self.estimate(self.acc[0], self.mag[0]) if self.q0 is None else self.q0.copy()", "        Q[0] = self.estimate(self.acc[0], self.mag[0]) if self.q0 is None else self.q0.copy()\n        self.beta = min(self.beta, self.alpha)"),
- ('c13_madgwick_no_guard', 'C13', 'ahrs/filters/madgwick.py', "        a_norm = np.linalg.norm(acc)\n        if a_norm > 0:\n            a = acc/a_norm\n            qw, qx, qy, qz = q/np.linalg.norm(q)\n            # Objective function (eq. 25)", "        a_norm = np.linalg.norm(acc)\n        if a_norm >= 0:\n            a = acc/a_norm\n            qw, qx, qy, qz = q/np.linalg.norm(q)\n            # Objective function (eq. 25)"),
- ('c13_mahony_bias_windup', 'C13', 'ahrs/filters/mahony.py', "            m_norm = np.linalg.norm(mag)\n            if m_norm == 0:\n                return self.updateIMU(q, gyr, acc)", "            m_norm = np.linalg.norm(mag)\n            if m_norm == 0:\n                self.b += self.k_P * np.copy(gyr) * dt\n                return self.updateIMU(q, gyr, acc)"),
  ('c13_ekf_zero_acc_nan', 'C13', 'ahrs/filters/ekf.py', "        if a_norm == 0:\n            return q\n", "        if a_norm < 0:\n            return q\n"),
  ('c13_roleq_guard_and', 'C13', 'ahrs/filters/roleq.py', "        if not a_norm > 0 or not m_norm > 0:", "        if not a_norm > 0 and not m_norm > 0:"),
  ('c05_ekf_enu_aref', 'C05', 'ahrs/filters/ekf.py', "        self.a_ref = np.array([0.0, 0.0, 1.0]) if frame.upper() == 'NED' else np.array([0.0, 0.0, -1.0])", "        self.a_ref = np.array([0.0, 0.0, 1.0])"),
@@ -23,10 +21,12 @@ MUTANTS = [
  ('c19_q2euler_inplace', 'C19', 'ahrs/common/orientation.py', "    q = q / np.linalg.norm(q)\n    Q = np.array([\n        [q[0], -q[1], -q[2], -q[3]],\n        [q[1],  q[0], -q[3],  q[2]],", "    q *= 1.0 / np.linalg.norm(q)\n    Q = np.array([\n        [q[0], -q[1], -q[2], -q[3]],\n        [q[1],  q[0], -q[3],  q[2]],"),
  ('c05_mahony_ki_sign', 'C05', 'ahrs/filters/mahony.py', "            omega_mes = np.cross(a, v_a) + np.cross(m, v_m) # Cost function (eqs. 32c and 48a)\n            bDot = -self.k_I*omega_mes", "            omega_mes = np.cross(a, v_a) + np.cross(m, v_m) # Cost function (eqs. 32c and 48a)\n            bDot = self.k_I*omega_mes"),
  ('c03_mahony_imu_no_renorm', 'C03', 'ahrs/filters/mahony.py', "            Omega = Omega - self.b + self.k_P*omega_mes  # Gyro correction\n        p = np.array([0.0, *Omega])\n        qDot = 0.5*q.product(p)                     # Rate of change of quaternion (eqs. 45 and 48b)\n        q += qDot*dt                                # Update orientation\n        q /= np.linalg.norm(q)                      # Normalize Quaternion (Versor)\n        return q\n\n    def updateMARG", "            Omega = Omega - self.b + self.k_P*omega_mes  # Gyro correction\n        p = np.array([0.0, *Omega])\n        qDot = 0.5*q.product(p)                     # Rate of change of quaternion (eqs. 45 and 48b)\n        q += qDot*dt                                # Update orientation\n        return q\n\n    def updateMARG"),
- ('c12_slerp_nan_weights', 'C12', 'ahrs/common/quaternion.py', "                t_array=np.linspace(0, 1, interval[1]-interval[0]+3)[1:-1]", "                t_array=np.linspace(0, 1, interval[1]-interval[0]+2, endpoint=False)[1:]"),
  ('c08_closed_small_angle_shortcut', 'C08', 'ahrs/filters/angular.py', "            A = np.cos(w*dt/2.0)*np.eye(4) + np.sin(w*dt/2.0)*Omega/w", "            A = np.cos(w*dt/2.0)*np.eye(4) + np.sin(w*dt/2.0)*Omega/w if w*dt > 1e-3 else np.eye(4) + 0.5*dt*Omega"),
  ('c15_wmm_enu_history', 'C15', 'ahrs/utils/wmm.py', "        if self.frame.upper() == 'ENU':\n            self.X, self.Y, self.Z = ned2enu([self.X, self.Y, self.Z])", "        if self.frame.upper() == 'ENU' and not getattr(self, '_enu_done', False):\n            self._enu_done = True\n            self.X, self.Y, self.Z = ned2enu([self.X, self.Y, self.Z])"),
  ('c19_tilt_normalises_input', 'C19', 'ahrs/filters/tilt.py', ["        acc = np.copy(acc)\n        a_norm = np.linalg.norm(acc)\n        if a_norm == 0:\n            raise ValueError(\"Gravitational acceleration must be non-zero\")\n        ax, ay, az = acc/a_norm"], ["        acc = np.asarray(acc, dtype=float)\n        a_norm = np.linalg.norm(acc)\n        if a_norm == 0:\n            raise ValueError(\"Gravitational acceleration must be non-zero\")\n        acc /= a_norm\n        ax, ay, az = acc"]),
+ ('c12_slerp_nan_weights', 'C12', 'ahrs/common/quaternion.py', "                t_array=np.linspace(0, 1, interval[1]-interval[0]+3)[1:-1]", "                t_array=np.arange(1, interval[1]-interval[0]+2)/(interval[1]-interval[0]+3)"),
+ ('c13_aqua_no_zero_acc_guard', 'C13', 'ahrs/filters/aqua.py', "        if a_norm == 0:\n            return qInt.to_array()\n        a = acc/a_norm\n        gx, gy, gz = qInt.to_DCM().T @ a                    # Predicted gravity (eq. 44)\n        q_acc = np.array([np.sqrt((gz+1.0)/2.0), -gy/np.sqrt(2.0*(gz+1.0)), gx/np.sqrt(2.0*(gz+1.0)), 0.0])     # Delta Quaternion (eq. 47)\n        if self.adaptive:\n            self.alpha = adaptive_gain(acc)\n        q_acc = slerp_I(q_acc, self.alpha, self.threshold)\n        q_prime = qInt.product(q_acc)                       # (eq. 53)", "        if a_norm < 0:\n            return qInt.to_array()\n        a = acc/a_norm\n        gx, gy, gz = qInt.to_DCM().T @ a                    # Predicted gravity (eq. 44)\n        q_acc = np.array([np.sqrt((gz+1.0)/2.0), -gy/np.sqrt(2.0*(gz+1.0)), gx/np.sqrt(2.0*(gz+1.0)), 0.0])     # Delta Quaternion (eq. 47)\n        if self.adaptive:\n            self.alpha = adaptive_gain(acc)\n        q_acc = slerp_I(q_acc, self.alpha, self.threshold)\n        q_prime = qInt.product(q_acc)                       # (eq. 53)"),
+ ('c13_mahony_bias_windup', 'C13', 'ahrs/filters/mahony.py', "            if m_norm == 0:\n                return self.updateIMU(q, gyr, acc, dt)", "            if m_norm == 0:\n                self.b += self.k_P * np.copy(gyr) * dt\n                return self.updateIMU(q, gyr, acc, dt)"),
 ]
 
 def main():
